@@ -352,6 +352,10 @@ func c11Run(c *Ctx) {
 		Lines(Var("a", "[1, 2, 3]"), "a[1] = a;", "a[0] = 9;", Print("a[1][0]"), Print("a[1][1][0]"), "a[1][2] = 7;", Print("a[2]"), Print(BI("len", "a[1]")), Print("a[1] == a")),
 		Lines(Var("head", "[5, nil]"), "head[1] = head;", Var("al", "head"), "al[0] = 6;", Print("head[1][1][0]"), Fun("setboth", "x, y", " x[0] = y; y[0] = 8; "+Ret("x[0][0]")+" "), Var("s", "[0]"), Print("setboth(s, s)"), Print("s[0] == s"), Print("s[0][0][0] == s")),
 	)
+	// a plain array held twice inside a value that also contains itself is shown in full both times
+	selfAppend = append(selfAppend,
+		Lines(Var("sh", "[0, 0]"), Var("b", `["B", sh, sh]`), Var("a", `["A", sh, b, 0]`), "a[3] = a;", Print("a"), "sh[1] = 5;", Print("a"), Print("b"), Var("ring", "[sh, [sh], 0]"), "ring[2] = ring;", Print("ring"), Print("[ring, sh]")),
+		Lines(Var("ob", "{\u09b8\u09ae\u09df: [], \u09ac\u09dc: [1]}"), Var("arr3", "[9, 2, 3]"), "ob.\u09b8\u09ae\u09df = arr3;", Print("ob.\u09b8\u09ae\u09df"), "ob.\u09b8\u09ae\u09df[0] = 7;", Print("arr3"), "ob.\u09ac\u09dc = "+BI("append", "ob.\u09ac\u09dc", "2")+";", Print("ob.\u09ac\u09dc"), Print(BI("len", "ob.\u09b8\u09ae\u09df"))))
 	// a parameter spelled like its own function still holds the array that was passed
 	selfAppend = append(selfAppend,
 		Lines(Fun("total", "total", " total[0] = 9; "+Ret(BI("len", "total")+" + total[0]")+" "), Var("xs", "[1, 2, 3]"), Print("total(xs)"), Print("xs"), Var("grid", "[[0], [5, 6]]"), Print("total(grid[1])"), Print("grid"), Var("box", "{items: [7]}"), Print("total(box.items)"), Print("box")))
